@@ -37,6 +37,8 @@ pub struct ProxyParams {
     pub nodes_v1: bool,
     pub batch: u8,
     pub backend_timeout_ms: u64,
+    /// redirection budget when active redirection is on (2 = a forwarded command arrives as `UMFORWARD 0`)
+    pub max_redirections: usize,
 }
 
 impl Default for ProxyParams {
@@ -47,6 +49,7 @@ impl Default for ProxyParams {
             nodes_v1: false,
             batch: 0,
             backend_timeout_ms: 3000,
+            max_redirections: 4,
         }
     }
 }
@@ -69,7 +72,7 @@ pub fn proxy_config(addr: &str, pp: &ProxyParams) -> ServerProxyConfig {
         thread_number: NonZeroUsize::new(1).expect("nz"),
         backend_conn_num: NonZeroUsize::new(pp.backend_conn_num.max(1)).expect("nz"),
         active_redirection: pp.active_redirection,
-        max_redirections: if pp.active_redirection { NonZeroUsize::new(4) } else { None },
+        max_redirections: if pp.active_redirection { NonZeroUsize::new(pp.max_redirections.max(1)) } else { None },
         default_redirection_address: None,
         backend_batch_strategy: match pp.batch {
             1 => BatchStrategy::Fixed,
